@@ -1008,4 +1008,57 @@ theorem tuple_serializes_like_list (kw : Kw) (items : List Atom) :
         | .ok (ss, m) => .ok (joinSp ss, m)
         | .error x => .error x) := rfl
 
+/-! ## the hypotheses of the theorems above are satisfiable (one concrete, non-trivial instance each) -/
+
+-- 1 bool_accepts
+example : boolDeserialize Env.ascii ([' ', Char.ofNat 10] ++ ['1'] ++ [Char.ofNat 9]) = some true :=
+  bool_accepts Env.ascii _ _ _ _ (by intro c hc; simp at hc; rcases hc with rfl | rfl <;> decide)
+    (by intro c hc; simp at hc; subst hc; decide) (by unfold XsdBoolean; decide)
+
+-- 2 int_accepts
+example : XsdInteger ['+', '0', '0', '7'] 7 :=
+  ⟨.plus, ['0', '0', '7'], rfl, by simp, by unfold AllDigits; decide, by decide⟩
+
+-- 3 decimal_accepts
+example : XsdDecimal ['-', '.', '5', '0'] true 50 (-2) ∧ (Dec.fin true 50 (-2)).inRange = true :=
+  ⟨⟨.minus, [], ['5', '0'], true, rfl, (by intro c h; cases h), by unfold AllDigits; decide,
+    Or.inr ⟨rfl, by simp⟩, (by intro h; cases h), rfl, by decide, by decide⟩, by decide⟩
+
+-- 4 float_accepts
+example : XsdDouble ['.', '5', 'E', '-', '7'] (.fin false 5 (-8)) :=
+  Or.inl ⟨.none, [], ['5'], true, some (true, .minus, ['7']), rfl, (by intro c h; cases h),
+    by unfold AllDigits; decide, Or.inr ⟨rfl, by simp⟩, (by intro h; cases h),
+    ⟨by simp, by unfold AllDigits; decide⟩, by decide⟩
+
+-- 5 hex_accepts / b64_accepts / b64_rt : the removeWs hypothesis
+example : removeWs Env.ascii ['Q', 'Q', Char.ofNat 10, '=', ' ', '='] = b64Encode [65] ∧
+    removeWs Env.ascii ['0', 'a', ' ', 'F', 'f'] = ['0', 'a', 'F', 'f'] := by decide
+
+-- 6 sort_types_stable
+example : typeKey ['i', 'n', 't'] ≤ typeKey ['s', 't', 'r'] ∧
+    [['i', 'n', 't'], ['s', 't', 'r']].Sublist [['i', 'n', 't'], ['b', 'o', 'o', 'l'], ['s', 't', 'r']] := by
+  decide
+
+-- 7 sort_order_independent
+example : [Ty.str, .float, .int].Perm [.int, .str, .float] := by decide
+
+-- 8 deserialize_none
+example : ∀ pos, ∀ t ∈ [Ty.int, Ty.bool], deserializeOne asciiCEnv pos t ['x'] {} = none := by
+  intro pos t ht
+  simp at ht
+  rcases ht with rfl | rfl <;> (simp only [deserializeOne]; decide)
+
+-- 9 type_converter_exact / type_converter_mro
+example : Tables.registryTypes.contains ['b', 'o', 'o', 'l'] = true ∧
+    Tables.registryTypes.contains ['P', 'l', 'a', 'i', 'n'] = false := by decide
+
+-- 10 test_strict_decimal_sound
+example : test asciiCEnv [' ', '1', '.', '5', '0'] [.decimal] true {} = true := by decide
+
+-- 11 qname_accepts_bare
+example : isNcName asciiCEnv ['a', '.', 'b'] = true := by decide
+
+-- 12 enum_int_rt
+example : [(1 : Int), 10, -5].Nodup := by decide
+
 end Props.C05
